@@ -65,8 +65,13 @@ template <class PT> void ransac_case(vf::Ctx& c, const char* tname, int n, int o
     src.push_back(ps); tgt.push_back(pt); nrm.push_back(pn);
     if (!isOut[i]) { srcIn.push_back(ps); tgtIn.push_back(pt); nrmIn.push_back(pn); }
   }
-  auto run = [&](const PointSet<PT>& s, const PointSet<PT>& g, const NormalSet<PT>& nn, bool& ok, double& rmse) {
-    std::vector<Correspondence> cor; for (size_t i = 0; i < s.size(); ++i) cor.emplace_back(i, i);
+  // on every other data set the target (and its normals) is stored in another order, so that source index != target index, and the records
+  // carry the squared matching distance as a matcher would store it
+  const bool asMatcher = (variant + placement + motion + outlierPct / 10) % 2 == 1;
+  auto run = [&](const PointSet<PT>& s, const PointSet<PT>& g0, const NormalSet<PT>& nn0, bool& ok, double& rmse) {
+    std::vector<Correspondence> cor; PointSet<PT> g = g0; NormalSet<PT> nn = nn0; size_t m = s.size();
+    if (asMatcher && m % 7 != 0) { for (size_t i = 0; i < m; ++i) { size_t j = (7 * i + 3) % m; g[j] = g0[i]; nn[j] = nn0[i]; double d2 = 0; for (int d = 0; d < DIM; ++d) d2 += (double)(g0[i][d] - s[i][d]) * (double)(g0[i][d] - s[i][d]); cor.emplace_back(i, j, d2); } }
+    else for (size_t i = 0; i < m; ++i) cor.emplace_back(i, i);
     RansacRigidTransformationModel<PT> model;        // freshly constructed
     model.loadPointSets(&s, &g); model.loadCorrespondences(&cor, s.size()); model.loadTargetNormalSet(planeMode ? &nn : nullptr);
     Ransac ransac(&model, sigma);
@@ -135,7 +140,7 @@ std::string vf_describe(const std::string& tier) {
   bool th = tier == "thorough"; vf::JO o;
   o.str("icp", th ? "test/data/scan2d.txt (702 points) x (tx,ty) on a 41x41 lattice over [-0.2,0.2]^2 x theta on 21 values over [-0.05,0.05] x {Vector2d, Homogeneous2d, Vector2f, Homogeneous2f}; envelope corners included; fresh ICP object, identity guess, sigma 0.2"
                   : "test/data/scan2d.txt (702 points) x (tx,ty) on a 21x21 lattice over [-0.2,0.2]^2 x theta in {-0.05,-0.025,0,0.025,0.05} x {Vector2d, Homogeneous2d, Vector2f, Homogeneous2f}; envelope corners included; fresh ICP object, identity guess, sigma 0.2");
-  o.str("ransac", "Halton-pattern sets of {40,100,400} pairs over 20 m, 2D and 3D, all eight point types, inlier perturbation 0.3 sigma (sigma = 0.05), outliers {0,10,20,30}% placed first / last / interleaved and displaced 10.5 sigma or 50 sigma, six motions up to 0.5 m / 0.2 rad in the closed-form mode; point-to-plane mode for rotations up to 1e-3 rad; plus coherent outliers (all displaced by one common 15 sigma offset, 20/30%) over 40 (thorough 120) data-set variants x {100,163,232,355,390} pairs, Vector2d and Vector3d");
+  o.str("ransac", "Halton-pattern sets of {40,100,400} pairs over 20 m, 2D and 3D, all eight point types, inlier perturbation 0.3 sigma (sigma = 0.05), outliers {0,10,20,30}% placed first / last / interleaved and displaced 10.5 sigma or 50 sigma, six motions up to 0.5 m / 0.2 rad in the closed-form mode; point-to-plane mode for rotations up to 1e-3 rad; plus coherent outliers (all displaced by one common 15 sigma offset, 20/30%) over 40 (thorough 120) data-set variants; on every other data set the target and its normals are stored in another order (source index != target index) and the records carry the squared matching distance x {100,163,232,355,390} pairs, Vector2d and Vector3d");
   o.str("oracle", "find / estimateModel true; Frobenius norm of (estimate - truth) <= 0.015; reported consensus RMSE < sigma; estimate with outliers within 0.015 of the estimate on the same set without them");
   return o.done();
 }
